@@ -125,6 +125,17 @@ def _run_withdraw(E, idparam):
     E.ctx.env['acct'] = acct
     rt.state = LazyV('st', 'State')
     params = LazyV('params', 'types::WithdrawBalanceParams')
+
+    def hook(E2, rt2, rec, nm):
+        # a miner's ControlAddresses answer: owner, worker and ONE further control address (all arbitrary)
+        if implied(E2.ctx, zv(rec.method) == 2) and E2.ctx.choose(2, nm + '.typed') == 0:
+            ret = StructV('ext::miner::GetControlAddressesReturnParams',
+                          {0: E2.materialize(ADDR, nm + '.owner'), 1: E2.materialize(ADDR, nm + '.worker'),
+                           2: VecV([E2.materialize(ADDR, nm + '.control0')], 'Vec<Address>')})
+            E2.ctx.env['control_ret'] = ret
+            return ('ok', some(BlockV(ret)))
+        return None
+    rt.send_hook = hook
     E.ctx.env['params'] = params
     E.ctx.env['balance0'] = rt.balance
     fn = find_fn(E, MARKET, 'withdraw_balance', 'lib.rs')
@@ -176,8 +187,11 @@ def props_withdraw(E, res):
     else:
         # owner / worker come from the miner's ControlAddresses answer (symbolic); recipient must be the owner
         i = rt.sends.index([s for s in rt.sends if s is not payout][0])
-        owner = find_mat(ctx, 'rt.send[%d].ret.Some.0.as<' % i, '.0')
-        worker = find_mat(ctx, 'rt.send[%d].ret.Some.0.as<' % i, '.1')
+        if 'control_ret' in env:
+            owner, worker = env['control_ret'].fields[0], env['control_ret'].fields[1]
+        else:
+            owner = find_mat(ctx, 'rt.send[%d].ret.Some.0.as<' % i, '.0')
+            worker = find_mat(ctx, 'rt.send[%d].ret.Some.0.as<' % i, '.1')
         P.append(('control addresses answer decoded', owner is not None and worker is not None))
         if owner is None or worker is None:
             return P
